@@ -52,12 +52,13 @@ type TagSpec struct {
 }
 
 type Field struct {
-	Key  string             `json:"key"`
-	T    *Type              `json:"t"`
-	O    *Opts              `json:"o"`
-	Anon bool               `json:"anon"` // embedded struct / *struct; O is nil or {opt:true}
-	Raw  *string            `json:"raw"`  // single-tag fields: the tag value as text
-	Tags map[string]TagSpec `json:"tags"` // several tags on one field; Key / O / Raw above are then unused
+	Key   string             `json:"key"`
+	T     *Type              `json:"t"`
+	O     *Opts              `json:"o"`
+	Anon  bool               `json:"anon"`  // embedded struct / *struct; O is nil or {opt:true}
+	Raw   *string            `json:"raw"`   // single-tag fields: the tag value as text
+	NoTag bool               `json:"notag"` // no struct tag at all: every unmarshaller kind reads the field under its Go name
+	Tags  map[string]TagSpec `json:"tags"`  // several tags on one field; Key / O / Raw above are then unused
 }
 
 type Type struct {
@@ -107,9 +108,9 @@ type Case struct {
 	Doc  *Doc    `json:"doc"`
 	Raw  *string `json:"raw"`
 	// httpx modes only
-	Direct bool    `json:"direct"` // call ParseJsonBody / ParseForm / ParsePath / ParseHeaders instead of Parse
-	Pad    int     `json:"pad"`    // json body: insert that many spaces after the first byte
-	Repeat *Repeat `json:"repeat"` // form: add n more values for a key
+	Direct    bool      `json:"direct"`    // call ParseJsonBody / ParseForm / ParsePath / ParseHeaders instead of Parse
+	Pad       int       `json:"pad"`       // json body: insert that many spaces after the first byte
+	Repeat    *Repeat   `json:"repeat"`    // form: add n more values for a key
 	Req       *ParseReq `json:"req"`       // mode "parse"
 	Validator *string   `json:"validator"` // httpx.SetValidator for this call: "accept" / "reject"
 	Ctype     *string   `json:"ctype"`     // httpx-json: Content-Type (default application/json)
@@ -203,6 +204,9 @@ func oneTag(tagKey, key string, o *Opts, raw *string) string {
 
 // renderTag: the whole struct tag of a field (one tag for single-kind types, several otherwise)
 func renderTag(tagKey string, f Field) string {
+	if f.NoTag {
+		return ""
+	}
 	if f.Tags == nil {
 		return oneTag(tagKey, f.Key, f.O, f.Raw)
 	}
